@@ -689,7 +689,8 @@ def stream_sem(ctx: Ctx, emit_cases_done: list[tuple[dict[str, Any], list[str], 
 		elif r in ('True', 'False'):
 			py_real.append('ok b:1' if r == 'True' else 'ok b:0')
 		elif r.endswith('f'):
-			py_real.append(f'ok f:{int(float(r[:-1]) * 4096)}')
+			fv = float(r[:-1]) * 4096
+			py_real.append(f'ok f:{int(fv)}' if abs(fv) < 4.0e18 else ('ok f:-big' if fv < 0 else 'ok f:big'))
 		else:
 			py_real.append(f'ok i:{r}')
 	# a tag mismatch (the emitter chose the `%` template from types that do not describe the operands: the repaired fmod:left-type)
@@ -705,7 +706,8 @@ def stream_sem(ctx: Ctx, emit_cases_done: list[tuple[dict[str, Any], list[str], 
 	core_ix = [k for k in core_ix if k not in ub_ix]
 	src = ['#include <cstdio>', '#include <cstdlib>', '#include <cmath>',
 		'static void show(bool v) { printf("%d\\n", v ? 1 : 0); }', 'static void show(int v) { printf("%d\\n", v); }', 'static void show(long v) { printf("%ld\\n", v); }',
-		'static void show(double v) { if (!std::isfinite(v)) printf("f:nonfinite\\n"); else printf("f:%lld\\n", (long long)(v * 4096.0)); }']
+		'static void show(double v) { if (!std::isfinite(v)) printf("f:nonfinite\\n"); else if (std::fabs(v * 4096.0) < 4.0e18) printf("f:%lld\\n", (long long)(v * 4096.0)); '
+		'else printf(v < 0 ? "f:-big\\n" : "f:big\\n"); }']
 	for k in core_ix:
 		src.append(f"static void f{k}(int a, int b, int c, bool p, bool q, double x, double y) {{ show({cases_in[k][0]['text']}); }}")
 	src.append('int main(int argc, char** argv) { int k = atoi(argv[1]); switch (k) {')
